@@ -31,7 +31,8 @@ RULE = (
     "Hypothesis-generated cases = (history spec: 4-14 commits, shapes linear/fork-merge/criss-cross/octopus(3-5 parents)/"
     "multi-root, timestamp modes, shared blobs/subtrees, annotated/lightweight/nested tags, 4 branches, "
     "pack.indexVersion None/1/2/3) x (script of 4-10 ops: advance history loose / as a new pack, pack_loose, repack, "
-    "repack(exclude=unreachable), gc, git repack -ad[b], delete / move back a branch (by dulwich or by `git update-ref`), mark a commit shallow, query the live instance, write commit-graph {dulwich reachable, dulwich "
+    "repack(exclude=unreachable), gc, git repack -ad[b], delete / move back a branch (by dulwich or by `git "
+    "update-ref`), mark a commit shallow, query the live instance, write commit-graph {dulwich reachable, dulwich "
     "all, dulwich reachable=False, git, git --changed-paths}, write multi-pack-index {dulwich, git, git --bitmap}, "
     "generate_pack_bitmaps, pack-refs {dulwich all, dulwich tags, git}, install a foreign commit-graph/midx/bitmap, "
     "rename a bitmap to another pack, reopen).  Every case runs the query battery (lookups of all known and absent ids, "
@@ -57,7 +58,7 @@ ASSUMPTIONS = [
 logging.getLogger("dulwich").setLevel(logging.CRITICAL)
 
 ABSENT = [hashlib.sha1(b"c14 absent %d" % i).hexdigest().encode() for i in range(4)]
-ACCEPTED_LOAD_ERRORS = ("ValueError", "ChecksumMismatch", "KeyError-never")  # documented load-time rejections
+ACCEPTED_LOAD_ERRORS = ("ValueError", "ChecksumMismatch")  # documented load-time rejections of a mismatched file
 
 
 # ---------------------------------------------------------------------------
@@ -605,6 +606,12 @@ class Plan:
         if len(cs) >= 3:
             mof.append(((cs[len(cs) // 2], ABSENT[0]), tuple(heads)))
         self.mof = list(dict.fromkeys(mof))[:7]
+        # MissingObjectFinder starts with get_reachable_commits(<commits of haves>): ask that root query too, so that
+        # a wrong transfer set is attributed to it and not reported as a second root cause
+        for haves, _w in self.mof:
+            hc = tuple(sorted({h.peel(x) for x in haves if x in h.objs} & set(h.cids)))
+            if hc and (hc, ()) not in self.rc:
+                self.rc.append((hc, ()))
 
 
 def run_battery(repo, plan: Plan, families=None):
@@ -1031,10 +1038,12 @@ def evaluate(scratch_root: str, case) -> Result:
         try:
             fresh = run_battery(ra, plan)
             loaded = _loaded(ra, present)
+            _label_bitmap_use(out, "fresh", ra, plan)
         finally:
             ra.close()
         variants = [("fresh", fresh)]
         live = run_battery(ex.repo, plan)
+        _label_bitmap_use(out, "live", ex.repo, plan)
         variants.append(("live", live))
         for name, res in variants:
             pc_fails, bad_names = check_peeled_cache(ex, plan, name, res)
@@ -1100,6 +1109,17 @@ def evaluate(scratch_root: str, case) -> Result:
             except Exception:
                 pass
         shutil.rmtree(root, ignore_errors=True)
+
+
+def _label_bitmap_use(out, variant, repo, plan):
+    """Label only (looks at a private helper, tolerates its absence): did a bitmap actually produce an answer?"""
+    try:
+        prov = repo.object_store.get_reachability_provider()
+        fn = getattr(prov, "_combine_commit_bitmaps", None)
+        if fn is not None and any(fn({hd}) is not None for hd in plan.heads[:3]):
+            out.labels.add(f"bitmap-produced-an-answer({variant})")
+    except Exception:
+        pass
 
 
 def _loaded(repo, present):
@@ -1262,7 +1282,7 @@ def run(ctx):
     selftest(ctx)
     ctx.note("git_version", cgit.version())
     ctx.parallel(_fixed_part, [[c] for c in FIXED])
-    per = ctx.scale(55, 2000)
+    per = ctx.scale(50, 2000)
     ctx.parallel(_part, [per] * 16)
     ab = ctx.extra.get("abandoned", 0)
     if ab * 5 > max(1, ctx.evaluations):
